@@ -452,7 +452,7 @@ func revisitWorker(f *Fixture, res *engine.Result, tier string, shard, n int) {
 	rAddr := world.ContractAddr(0x21)
 	var opts []pcall
 	for _, slot := range []byte{1, 2} {
-		for _, val := range []byte{7, 9} {
+		for _, val := range []byte{0, 7, 9} {
 			for _, rv := range []bool{false, true} {
 				for _, v := range []int64{0, 3} {
 					opts = append(opts, pcall{slot, val, rv, v})
@@ -483,7 +483,7 @@ func revisitWorker(f *Fixture, res *engine.Result, tier string, shard, n int) {
 				}
 				a.Stop()
 				var names []string
-				want := map[uint64]uint64{}
+				want := map[uint64]uint64{1: 5} // slot 1 holds a committed non-zero value before the transaction
 				wantBal := int64(0)
 				for _, c := range cur {
 					names = append(names, c.String())
@@ -495,7 +495,7 @@ func revisitWorker(f *Fixture, res *engine.Result, tier string, shard, n int) {
 				p := []string{"R{" + strings.Join(names, " ") + "}"}
 				restore := w.Branch()
 				ctx := w.App.BaseApp.VerifDeliverCtx()
-				w.InstallContract(ctx, pAddr, paramChildCode(), nil)
+				w.InstallContract(ctx, pAddr, paramChildCode(), map[uint64]uint64{1: 5})
 				w.InstallContract(ctx, rAddr, a.Bytes(), nil)
 				nonce := w.App.AccountKeeper.GetAccount(ctx, w.Addrs[f.S]).GetSequence()
 				bz, _ := world.WrapEth(w.SignEth(w.Keys[f.S], world.EthSpec{Nonce: nonce, Gas: 5000000, To: &rAddr, Value: big.NewInt(20), GasPrice: big.NewInt(0)}))
